@@ -33,7 +33,7 @@ def run(ctx):
     rng = ctx.rng
     ctx.rule = ("real fits with precomputed_knn tables of k, k+1, 2k columns x force_approximation_algorithm in {F,T} x 2-/3-tuples "
                 "x n in {80,300} (thorough: + one n>=4096): graph vs first-k-columns fit (exact) and vs UMAP's own exact fit (abs 1e-5); "
-                "too-few-columns / wrong-row-count tables vs ordinary fit (also on an estimator previously fitted with a usable table); the live decision table over the abstraction grid is "
+                "too-few-columns / wrong-row-count tables vs ordinary fit (also on an estimator previously fitted with a usable table); a non-exact table at the size threshold n = 4096 (4095 / 4097 thorough) under both force settings; the live decision table over the abstraction grid is "
                 "regenerated into Lean and proved equal to the model; non-trivial = table has extra columns or is rejected")
     ctx.assumptions += ["NN-descent is not exercised: tables are exact", "graph of own exact fit compared at abs 1e-5 (distance rounding sklearn vs harness)"]
     ncfg = 24 if ctx.thorough else 8
@@ -118,6 +118,34 @@ def run(ctx):
                 ctx.violation("rejected-ordinary", f"estimator fitted with a usable table, then refitted on data of another size (table ignored): graph differs "
                                                    f"from an ordinary fit by {d4} at {at4}", dict(case, bad="reused-estimator"), key="C20:force-flag-sticks-to-estimator")
             ctx.case(key=hash(str(case["X"])) ^ hash("reused"), nontrivial=True, rejected="reused-estimator")
+
+    # the size threshold itself: at n = 4095, 4096 (and 4200 in the thorough tier) a usable table is used as given, whatever
+    # force_approximation_algorithm says — shown with a table that is NOT the exact one (neighbours under another metric), so that
+    # silently recomputing the neighbours cannot go unnoticed
+    from sklearn.neighbors import NearestNeighbors
+    import umap.umap_ as UU
+    for n in ((4095, 4096, 4097) if ctx.thorough else (4096,)):
+        k = 5
+        X, _ = gen.dataset(rng, n, 3, kind="gauss")
+        nbm = NearestNeighbors(n_neighbors=k + 2, metric="manhattan").fit(X)
+        dist_m, idx_m = nbm.kneighbors(X)
+        tbl = (idx_m.astype(np.int64), dist_m.astype(np.float32))
+        graphs = {}
+        case = {"n": n, "k": k, "table": "manhattan neighbours supplied for metric='euclidean'"}
+        try:
+            for force in (False, True):
+                graphs[force] = umap.UMAP(n_neighbors=k, precomputed_knn=(tbl[0].copy(), tbl[1].copy()), n_epochs=0, init="random", random_state=1,
+                                          force_approximation_algorithm=force).fit(X).graph_
+            want, _, _ = UU.fuzzy_simplicial_set(X, k, np.random.RandomState(1), "euclidean", {}, tbl[0][:, :k].copy(), tbl[1][:, :k].copy())
+        except Exception as e:  # noqa
+            ctx.violation("exception", f"n={n}: fit with a precomputed table raised {type(e).__name__}: {e}", case)
+            continue
+        for force in (False, True):
+            d, at = graph_diff(graphs[force], want)
+            if d != 0.0:
+                ctx.violation("threshold", f"n={n}, force_approximation_algorithm={force}: the graph is not the graph of the supplied table's first {k} "
+                                           f"columns (differs by {d} at {at}; {graphs[force].nnz} vs {want.nnz} entries)", dict(case, force=force))
+        ctx.case(key=f"threshold{n}", nontrivial=True, n=n, part="size-threshold")
 
     if ctx.thorough:
         n, k = 4200, 5
